@@ -26,6 +26,13 @@ theorem C10_emplace_alias (L : VecLaws α cfg Ok) (m : Mem α) (c : Nat) (xs : L
       (fun res m' => StrongPost cfg Ok c m w xs (xs.take p ++ v :: xs.drop p) p res m' ∧ m'.buf .tmp = some [.raw]) :=
   emplace_post L m c xs w h hf p hp (.copy (.at ⟨regionOf cfg c w, i⟩)) v (Or.inl ⟨rfl, hi⟩) ht (regionOf_ne_tmp cfg c w)
 
+/-- `v.emplace_back(v[i])`: built from the argument before the vector grows -/
+theorem C10_emplace_back_alias (L : VecLaws α cfg Ok) (m : Mem α) (c : Nat) (xs : List α) (w : VB) (i : Nat) (v : α)
+    (h : VRepW cfg Ok c m xs w) (hf : Fresh m) (hi : xs[i]? = some v) (ht : m.buf .tmp = some [.raw]) :
+    Post (emplaceBack cfg c (.copy (.at ⟨regionOf cfg c w, i⟩))) m
+      (fun res m' => StrongPost cfg Ok c m w xs (xs ++ [v]) () res m' ∧ m'.buf .tmp = some [.raw]) :=
+  emplaceBack_post L m c xs w h hf (.copy (.at ⟨regionOf cfg c w, i⟩)) v (Or.inl ⟨rfl, hi⟩) ht (regionOf_ne_tmp cfg c w)
+
 /-- `v.resize(n, v[i])`, `v.append(n, v[i])`, `v.insert(v.end(), n, v[i])` -/
 theorem C10_resize_alias (L : VecLaws α cfg Ok) (m : Mem α) (c : Nat) (xs : List α) (w : VB) (count i : Nat) (v : α)
     (h : VRepW cfg Ok c m xs w) (hf : Fresh m) (hi : xs[i]? = some v) :
